@@ -11,3 +11,6 @@ open Martian.Props.C08
 #print axioms safeRunB_sound
 #print axioms priority_flag_partial
 #print axioms priority_flag_counterexample
+#print axioms facts_relay_constants
+#print axioms facts_continued_headers_keep_end_stream
+#print axioms facts_preface_read_in_full
